@@ -428,4 +428,62 @@ theorem rankedDonors_sorted (spread : Nat → α) (K m : Nat) (labels : List Nat
 
 end sorted
 
+/-! ### `repopulate` in terms of the loop -/
+
+theorem mem_needy (K : Nat) (labels : List Nat) (e : Nat) :
+    e ∈ needy K labels ↔ e < K ∧ size labels e < 2 := by
+  unfold needy
+  rw [List.mem_filter, List.mem_range, decide_eq_true_iff]
+  exact Iff.rfl
+
+theorem needy_nodup (K : Nat) (labels : List Nat) : (needy K labels).Nodup :=
+  List.Pairwise.filter _ List.nodup_range
+
+section top
+variable {α : Type} [LT α] [DecidableLT α]
+
+theorem inv_init (spread : Nat → α) {K m : Nat} {order labels : List Nat} (hm : 1 ≤ m)
+    (ho : order.Perm (needy K labels)) :
+    Inv m order (rankedDonors spread K m labels) labels := by
+  refine ⟨ho.nodup_iff.mpr (needy_nodup K labels), rankedDonors_nodup spread K m labels, ?_, ?_⟩
+  · intro e he hr
+    have h1 := ((mem_needy K labels e).mp (ho.mem_iff.mp he)).2
+    have h2 := ((mem_rankedDonors spread K m labels e).mp hr).2
+    omega
+  · intro d hd
+    exact ((mem_rankedDonors spread K m labels d).mp hd).2
+
+theorem repopulate_eq (spread : Nat → α) {K : Nat} (m : Nat) (pick : Nat → Nat → List Nat)
+    {order labels : List Nat} (ho : order.Perm (needy K labels)) :
+    repopulate K m spread pick order labels =
+      refill m pick order (rankedDonors spread K m labels) labels 0 := by
+  unfold repopulate
+  split
+  · rename_i h
+    rw [h] at ho
+    rw [ho.eq_nil, refill]
+  · rfl
+
+theorem donorsUsed_eq (spread : Nat → α) {K : Nat} (m : Nat) (pick : Nat → Nat → List Nat)
+    {order labels : List Nat} (ho : order.Perm (needy K labels)) :
+    donorsUsed K m spread pick order labels =
+      refillDonors m pick order (rankedDonors spread K m labels) labels 0 := by
+  unfold donorsUsed
+  split
+  · rename_i h
+    rw [h] at ho
+    rw [ho.eq_nil, refillDonors]
+  · rfl
+
+/-- everything a successful `repopulate` guarantees, in one package. -/
+theorem repopulate_spec (spread : Nat → α) {K m : Nat} {pick : Nat → Nat → List Nat}
+    {order labels labels' : List Nat} (hm : 1 ≤ m) (hp : ValidPick m pick)
+    (ho : order.Perm (needy K labels))
+    (h : repopulate K m spread pick order labels = some labels') :
+    RefillSpec m order (rankedDonors spread K m labels) labels labels' := by
+  rw [repopulate_eq spread m pick ho] at h
+  exact refill_spec hm hp order _ _ _ _ (inv_init spread hm ho) h
+
+end top
+
 end FastTicc.Repop
